@@ -2,14 +2,20 @@
 import itertools
 import os
 import random
+import sys
 
+import lib
 from lib import Case, fmt_list
 
 PROP = "C20"
 DRIVER = "drv-c20"
 PROOF_MODULES = ["TetlProofs.C20.Props"]
 HARNESS = "harness/c20.cpp"
-HARNESS_FLAGS = ["-O0", "-g0"]          # ~600 template instantiations on each of the two libraries
+BASE_FLAGS = ["-O0", "-g0"]             # ~2000 template instantiations on each of the two libraries
+HARNESS_FLAGS = list(BASE_FLAGS)
+# harness/c20.cpp is compiled as NPARTS translation units in parallel (-DC20_PART=k) by run() below; check.py then compiles
+# main() (-DC20_PART=-1) and links them
+NPARTS = 24
 
 
 def _probe(code):
@@ -22,10 +28,62 @@ def _probe(code):
     return p.returncode == 0
 
 
-HARNESS_FLAGS.append("-DC20_HAS_IFN_MEMPTR=%d" % _probe(
+BASE_FLAGS.append("-DC20_HAS_IFN_MEMPTR=%d" % _probe(
     "#include <etl/functional.hpp>\nstruct S { int d; long q(int) & { return 0; } };\n"
     "etl::inplace_function<long(S&, int), 32> f{&S::q}; etl::inplace_function<int(S&), 32> g{&S::d};\n"
     "long use(S& s) { return f(s, 1) + g(s); }\n"))
+HARNESS_FLAGS = list(BASE_FLAGS)
+
+
+def _build_parts():
+    """compile the translation units of the harness in parallel; returns the object files.  An object file is reused when
+    the preprocessed translation unit (every header of the tree under test expanded), the flags and the compiler are
+    byte-identical to those it was compiled from: any change of the library or of the harness gives a new key."""
+    import concurrent.futures as cf
+    import hashlib
+    os.makedirs(lib.BUILD, exist_ok=True)
+    cache = os.path.join(lib.BUILD, "c20_objcache")
+    os.makedirs(cache, exist_ok=True)
+    flags = list(lib.CXXFLAGS) + BASE_FLAGS
+    cxxv = lib.sh([lib.CXX, "--version"])[1]
+    src = os.path.join(lib.VERIF, HARNESS)
+
+    def one(k):
+        base = [lib.CXX] + flags + ["-DC20_PART=%d" % k, "-I", os.path.join(lib.REPO, "include"), "-I", os.path.join(lib.VERIF, "harness")]
+        rc, o, e = lib.sh(base + ["-E", src], timeout=600)
+        if rc != 0:
+            return None, rc, o[-200:] + e
+        key = hashlib.sha256((cxxv + "\0" + " ".join(flags) + "\0" + o).encode()).hexdigest()[:32]
+        out = os.path.join(cache, "part%d_%s.o" % (k, key))
+        if os.path.exists(out):
+            os.utime(out)
+            return out, 0, "cached"
+        tmp = out + ".%d.tmp" % os.getpid()
+        rc, o, e = lib.sh(base + ["-c", src, "-o", tmp], timeout=1800)
+        if rc == 0:
+            os.replace(tmp, out)
+        return out, rc, o + e
+
+    with cf.ThreadPoolExecutor(max_workers=NPARTS) as ex:
+        res = list(ex.map(one, range(NPARTS)))
+    bad = [r for r in res if r[1] != 0]
+    if bad:
+        raise lib.MachineryError("harness does not compile against %s:\n%s" % (lib.REPO, bad[0][2][-1500:]))
+    olds = sorted((os.path.join(cache, f) for f in os.listdir(cache)), key=os.path.getmtime)
+    for f in olds[:-8 * NPARTS]:
+        os.unlink(f)
+    return [r[0] for r in res]
+
+
+def run(ctx, replay=None):
+    """standard flow of check.py, with the translation units of the harness pre-compiled in parallel"""
+    global HARNESS_FLAGS
+    objs = _build_parts()
+    HARNESS_FLAGS = BASE_FLAGS + ["-DC20_PART=-1"] + objs
+    import check
+    return check.standard(sys.modules[__name__], ctx, replay)
+
+
 SOURCES = ["include/etl/_utility/pair.hpp", "include/etl/_tuple", "include/etl/_functional/invoke.hpp",
            "include/etl/_functional/inplace_function.hpp", "include/etl/_functional/function_ref.hpp",
            "include/etl/_functional/reference_wrapper.hpp", "include/etl/_functional/bind_front.hpp",
@@ -72,17 +130,21 @@ SEARCH_CAP = 400000
 
 KINDS = [0, 1, 2, 3, 4, 5]
 PAIR_OPS = ["dflt", "ctor", "ctorr", "copy", "move", "assign", "massign", "swap", "fswap", "selfswap", "make", "maker",
-            "get", "getc", "getr", "getcr", "sb", "conv", "convr", "cassign", "cmassign"]
-TUPLE_OPS = ["dflt", "ctor", "ctorr", "copy", "move", "swap", "selfswap", "make", "maker", "get", "getc", "getr", "getcr",
-             "mft", "mftr", "fwd", "tie"]
+            "get", "getc", "getr", "getcr", "sb", "conv", "convr", "cassign", "cmassign", "gett", "gettr"]
+TUPLE_OPS = ["dflt", "ctor", "ctorr", "copy", "move", "assign", "massign", "swap", "fswap", "selfswap", "make", "maker",
+             "get", "getc", "getr", "getcr", "sb", "gett", "gettr", "mft", "mftr", "fwd", "tie", "tieassign", "tiemassign",
+             "conv", "convr", "cassign", "cmassign", "convp", "convpr"]
+# element-kind lists of the tuples (the lists harness/c20.cpp tuple_kinds instantiates): every list of length 1 and 2, the
+# uniform triples and eight mixed triples in which every kind occurs at every position
+TUPLE_KINDS = ([[k] for k in KINDS] + [[k1, k2] for k1 in KINDS for k2 in KINDS] + [[k, k, k] for k in KINDS]
+               + [[0, 2, 4], [1, 3, 5], [4, 1, 2], [5, 0, 3], [2, 5, 1], [3, 4, 0], [1, 2, 3], [0, 4, 5]])
+# tuple_cat of tuples of different kinds (harness/c20.cpp tcat_line): (kinds of the flattened elements, arities)
+TCAT_MIXED = [([0, 2, 4, 3, 5], [2, 1, 2]), ([1, 2, 1], [1, 2]), ([5, 4, 1, 3, 0], [2, 2, 1]), ([3, 1, 4, 5], [2, 2]),
+              ([4, 4, 1], [1, 2]), ([5, 0, 5, 2], [1, 2, 1]), ([1, 0, 3], [2, 1])]
 TYPEQ = ["make_pair_unwraps_refwrap", "make_tuple_unwraps_refwrap", "tuple_cat_value_types", "tuple_cat_keeps_ref",
          "tuple_cat_keeps_nested", "tuple_copy_assignable", "tuple_move_assignable", "tuple_get_by_type",
          "tuple_structured_binding", "pair_ref_copy_assignable", "pair_get_by_type", "tuple_converting_ctor"]
-TYPE_FINDINGS = {"tuple_cat_keeps_ref": "F-C20-tuple-cat-decays",
-                 "tuple_cat_keeps_nested": "F-C20-tuple-cat-decays", "tuple_copy_assignable": "F-C20-tuple-not-assignable",
-                 "tuple_move_assignable": "F-C20-tuple-not-assignable", "tuple_get_by_type": "F-C20-tuple-get-by-type",
-                 "tuple_structured_binding": "F-C20-tuple-structured-binding",
-                 "pair_get_by_type": "F-C20-pair-get-by-type", "tuple_converting_ctor": "F-C20-tuple-converting-ctors"}
+TYPE_FINDINGS = {"tuple_cat_keeps_ref": "F-C20-tuple-cat-decays", "tuple_cat_keeps_nested": "F-C20-tuple-cat-decays"}
 NAN = 9
 
 
@@ -96,12 +158,13 @@ def ifn_alphabet():
     ops += ["ifn op=ctor_copy i=0 j=1", "ifn op=ctor_copy i=1 j=0", "ifn op=ctor_move i=0 j=1", "ifn op=ctor_move i=1 j=0"]
     ops += ["ifn op=assign i=0 j=1", "ifn op=assign i=1 j=0", "ifn op=assign i=0 j=0"]
     ops += ["ifn op=massign i=0 j=1", "ifn op=massign i=1 j=0", "ifn op=massign i=0 j=0"]
-    ops += ["ifn op=assign_null i=0", "ifn op=assign_fn i=1 ty=3 id=2", "ifn op=swap i=0 j=1", "ifn op=swap i=0 j=0", "ifn op=fswap i=1 j=1"]
+    ops += ["ifn op=assign_null i=0", "ifn op=assign_fn i=1 ty=3 id=2", "ifn op=swap i=0 j=1", "ifn op=swap i=0 j=0", "ifn op=fswap i=1 j=1",
+            "ifn op=fswap i=1 j=0"]
     ops += ["ifn op=call i=0 x=1", "ifn op=call i=1 x=2"]
     return ops
 
 
-TAIL = ["ifn op=call i=0 x=5", "ifn op=call i=1 x=6", "ifn op=bool i=0", "ifn op=eqnull i=1"]
+TAIL = ["ifn op=call i=0 x=5", "ifn op=call i=1 x=6", "ifn op=bool i=0", "ifn op=eqnull i=1", "ifn op=nenull i=0"]
 
 
 def random_history(rnd):
@@ -139,7 +202,7 @@ def random_history(rnd):
         elif r < 0.94:
             lines.append("ifn op=call i=%d x=%d" % (i, rnd.randint(0, 9)))
         else:
-            lines.append("ifn op=%s i=%d" % (rnd.choice(["bool", "eqnull"]), i))
+            lines.append("ifn op=%s i=%d" % (rnd.choice(["bool", "eqnull", "nenull"]), i))
     for k in range(4):
         lines.append("ifn op=call i=%d x=%d" % (k, k))
     return lines
@@ -186,12 +249,25 @@ def generate(tier, seed):
                 add("tuple op=eq a=%s b=%s" % (fmt_list(a), fmt_list(b)), "tuple/eq")
     # ---- tuple value operations
     for op in TUPLE_OPS:
-        for k in KINDS:
-            for n in (1, 2, 3):
-                for base in ([1, 2, 3], [0, 2, 0]) + (([7, 7, 1],) if thorough else ()):
-                    a = base[:n]
-                    b = [x + 3 for x in a]
-                    add("tuple op=%s t=%s a=%s b=%s" % (op, fmt_list([k] * n), fmt_list(a), fmt_list(b)), "tuple/" + op)
+        for ks in TUPLE_KINDS:
+            n = len(ks)
+            if op in ("convp", "convpr") and n != 2:
+                continue
+            for base in ([1, 2, 3], [0, 2, 0]) + (([7, 7, 1],) if thorough else ()):
+                a = base[:n]
+                b = [x + 3 for x in a]
+                add("tuple op=%s t=%s a=%s b=%s" % (op, fmt_list(ks), fmt_list(a), fmt_list(b)),
+                    "tuple/" + op + ("" if len(set(ks)) == 1 else "-mixed"))
+    for _ in range(10000 if thorough else 1000):
+        ks = rnd.choice(TUPLE_KINDS)
+        op = rnd.choice(TUPLE_OPS)
+        if op in ("convp", "convpr") and len(ks) != 2:
+            continue
+        add("tuple op=%s t=%s a=%s b=%s" % (op, fmt_list(ks), fmt_list([rnd.randint(0, 99) for _ in ks]),
+                                            fmt_list([rnd.randint(0, 99) for _ in ks])), "tuple/random")
+    for q in range(4):          # apply(pointer to member, tuple): the object is the first element
+        add("tuple op=apply f=memfn q=%d a=[%d]" % (q, 3 + q), "tuple/apply-memptr")
+        add("tuple op=apply f=memdata q=%d v=%d" % (q, 7 + q), "tuple/apply-memptr")
     for n in (1, 2, 3):
         for q in range(4):          # category of the tuple
             for c in range(4):      # category of the callee (forward<F>(f))
@@ -199,18 +275,22 @@ def generate(tier, seed):
                     add("tuple op=apply q=%d c=%d a=%s" % (q, c, fmt_list(base[:n])), "tuple/apply")
     # ---- tuple_cat
     shapes = [list(t) for m in (1, 2, 3) for t in itertools.product((1, 2), repeat=m)]
-    for t in (0, 1, 2, 3):
-        for q in (0, 2):
-            if t == 2 and q == 0:
-                continue
+    for t in KINDS:
+        for q in range(4):      # the tuples are handed over as lvalues, const lvalues, rvalues, const rvalues
             for ts in shapes:
                 v = list(range(1, sum(ts) + 1))
-                add("tcat t=%d q=%d ts=%s v=%s" % (t, q, fmt_list(ts), fmt_list(v)), "tcat")
+                add("tcat k=%s q=%d ts=%s v=%s" % (fmt_list([t] * sum(ts)), q, fmt_list(ts), fmt_list(v)), "tcat")
+    for ks, ts in TCAT_MIXED:
+        for q in range(4):
+            add("tcat k=%s q=%d ts=%s v=%s" % (fmt_list(ks), q, fmt_list(ts), fmt_list(list(range(1, len(ks) + 1)))), "tcat/mixed")
     for _ in range(3000 if thorough else 300):
-        t = rnd.choice((0, 1, 2, 3))
-        q = 2 if t == 2 else rnd.choice((0, 2))
-        ts = rnd.choice(shapes)
-        add("tcat t=%d q=%d ts=%s v=%s" % (t, q, fmt_list(ts), fmt_list([rnd.randint(0, 99) for _ in range(sum(ts))])), "tcat/random")
+        if rnd.random() < 0.3:
+            ks, ts = rnd.choice(TCAT_MIXED)
+        else:
+            ts = rnd.choice(shapes)
+            ks = [rnd.choice(KINDS)] * sum(ts)
+        add("tcat k=%s q=%d ts=%s v=%s" % (fmt_list(ks), rnd.randrange(4), fmt_list(ts), fmt_list([rnd.randint(0, 99) for _ in ks])),
+            "tcat/random")
     # ---- invoke
     for f in ("fn", "fptr", "lam"):
         for x in ([1, 2], [0, 9]):
@@ -228,9 +308,10 @@ def generate(tier, seed):
                     add("invoke f=memfn c=%d o=%s x=[%d]" % (c, o, 3 + c), "invoke/memfn")
     # ---- function_ref, inplace_function argument forwarding
     for c in (0, 1):
-        for act in ("call", "copy"):
+        for act in ("call", "copy", "rebind"):
             for xc in (0, 1, 2, 3):
                 add("fref f=fob c=%d act=%s x=[1,2,3] xc=[%d]" % (c, act, xc), "fref/fob")
+                add("fref f=fob c=%d act=%s ne=1 x=[1,2,3] xc=[%d]" % (c, act, xc), "fref/fob-noexcept")
     for f in ("fn", "fptr", "lam"):
         for act in ("call", "copy"):
             add("fref f=%s c=0 act=%s x=[4,2] xc=[]" % (f, act), "fref/" + f)
@@ -241,10 +322,10 @@ def generate(tier, seed):
         add("ifn2 f=memdata x=[] v=%d" % v, "ifn2/memptr")
     # ---- reference_wrapper, bind_front, not_fn
     for cst in (0, 1):
-        for act in ("call", "copy", "rebind"):
+        for act in ("call", "copy", "rebind", "reref"):
             for n in (0, 1, 2):
                 for xc in cat_lists(n):
-                    add("rw cst=%d act=%s x=%s xc=%s" % (cst, act, fmt_list([3, 5][:n]), fmt_list(xc)), "rw")
+                    add("rw cst=%d act=%s x=%s xc=%s" % (cst, act, fmt_list([3, 5][:n]), fmt_list(xc)), "rw" if act != "reref" else "rw/reref")
     for q in range(4):
         for bl in (0, 1):
             for nb in (0, 1, 2):
@@ -261,12 +342,28 @@ def generate(tier, seed):
                                     "bf/fob" if plain else ("bf/fob-ref" if any(br) else "bf/fob-" + act))
         for nb in (0, 1, 2):
             add("bf f=fn q=%d bl=0 b=%s x=%s" % (q, fmt_list([1, 2][:nb]), fmt_list([3, 5][:2 - nb])), "bf/fn")
+        for o in ("obj", "ptr", "cptr", "refw"):     # bind_front(pointer to member, object | pointer | reference_wrapper)
+            add("bf f=memfn q=%d bl=0 b=[] o=%s x=[%d]" % (q, o, 3 + q), "bf/memptr")
+            add("bf f=memdata q=%d bl=0 b=[] o=%s x=[] v=%d" % (q, o, 6 + q), "bf/memptr")
+        for c in range(4):                           # not_fn(pointer to member)(object of category c, ...)
+            for p in (0, 1):
+                add("nf f=memfn c=%d q=%d p=%d x=[%d]" % (c, q, p, 2 + c), "nf/memptr")
+            for v in (0, 5):
+                add("nf f=memdata c=%d q=%d v=%d" % (c, q, v), "nf/memptr")
         for p in (0, 1):
             for act in ("call", "copy", "move"):
                 for n in ((0, 1, 2) if act == "call" else (0, 1)):
                     for xc in cat_lists(n):
                         add("nf q=%d p=%d act=%s x=%s xc=%s" % (q, p, act, fmt_list([3, 5][:n]), fmt_list(xc)),
                             "nf" if act == "call" else "nf/" + act)
+    for p in (0, 1):                                 # the stateless not_fn<ConstFn>()
+        for x in ([3, 4], [0, 9]):
+            add("nfc f=fn p=%d x=%s" % (p, fmt_list(x)), "nfc")
+        for c in range(4):
+            add("nfc f=memfn c=%d p=%d x=[%d]" % (c, p, 4 + c), "nfc")
+    for c in range(4):
+        for v in (0, 7):
+            add("nfc f=memdata c=%d v=%d" % (c, v), "nfc")
     for q in TYPEQ:
         add("typeq q=%s" % q, "typeq")
     # ---- inplace_function histories: every sequence of `depth` operations of the alphabet
